@@ -108,7 +108,7 @@ def translate_location_check():
 # ---------------------------------------------------------------------------------------------------------
 # generator
 # ---------------------------------------------------------------------------------------------------------
-def gen_history(r, nops, hostile):
+def gen_history(r, nops, hostile, mixed=False):
     def pick(plain, bad, n):
         out = []
         while len(out) < n:
@@ -166,11 +166,101 @@ def gen_history(r, nops, hostile):
         r.shuffle(c)
         return sorted(c[:r.randint(lo, hi)])
 
+    def do_zip(ks):
+        nz[0] += 1
+        z = nz[0]
+        zips[z] = ks
+        ops.append({"op": "mkzip", "z": z, "ks": ks})
+        ops.append({"op": "prune", "ks": ks, "purge": True})
+        ops.append({"op": "ingestzip", "z": z, "ks": ks})
+        for k in ks:
+            ds[k]["zip"] = z
+
+    def plain_runs():
+        return [x for x in live_runs if "%" not in x and not unmodelled([x])]
+
+    def prelude():
+        """a file shared by several refs AND a zip with several members, stored at the same time"""
+        pr = plain_runs()
+        if not pr or not stage:
+            return
+        for _ in range(r.choice([1, 1, 2])):
+            run = r.choice(pr)
+            refs = [d for d in (fresh_fields(run) for _ in range(r.choice([2, 2, 3]))) if d]
+            refs = [d for d in refs if d["dt"] == refs[0]["dt"]] if refs else []
+            if len(refs) >= 2:
+                ks = [newk(d) for d in refs]
+                for k in ks:
+                    ds[k]["grp"] = ks[0]
+                ops.append({"op": "ingest", "mode": "copy", "ks": ks, "refs": refs, "src": r.choice(sorted(stage))})
+        for _ in range(r.choice([1, 1, 2])):
+            run = r.choice(pr)
+            ks = []
+            for _ in range(r.choice([2, 3])):
+                d = fresh_fields(run)
+                if d:
+                    ks.append(newk(d))
+                    ops.append({"op": "put", "k": ks[-1], **d})
+            if len(ks) >= 2:
+                do_zip(ks)
+
+    def mixed_batch():
+        """one removal call whose trash holds fragment (zip member) and plain paths together"""
+        zl = {}
+        for k, v in ds.items():
+            if v.get("zip") and v["st"] == "live":
+                zl.setdefault(v["zip"], []).append(k)
+        groups = {}
+        for k, v in ds.items():
+            if v.get("grp") and v["st"] == "live" and not v.get("zip"):
+                groups.setdefault(v["grp"], []).append(k)
+        sharers = [g for g in groups.values() if len(g) >= 2]
+        plain = [k for k, v in ds.items() if v["st"] == "live" and not v.get("zip") and not v.get("grp") and not v.get("direct")]
+        if not zl:
+            return None
+        z = r.choice(sorted(zl))
+        variant = r.choice(["member+sharer", "member+sharer", "allmembers+sharer", "twozips", "member+plain", "member+sharer+plain"])
+        ks = [r.choice(zl[z])]
+        if variant == "allmembers+sharer":
+            ks = list(zl[z])
+        if variant == "twozips" and len(zl) >= 2:
+            z2 = r.choice([q for q in sorted(zl) if q != z])
+            ks.append(r.choice(zl[z2]))
+        if "sharer" in variant and sharers:
+            g = r.choice(sharers)
+            ks += r.sample(g, r.randint(1, len(g) - 1))          # at least one sibling stays stored
+        if "plain" in variant and plain:
+            ks.append(r.choice(plain))
+        return sorted(set(ks)) if len(set(ks)) >= 2 else None
+
+    if mixed:
+        prelude()
     while len(ops) < nops:
         if not live_runs:
             break
         x = r.random()
-        if x < 0.24:
+        if mixed and x < 0.16:
+            ks = mixed_batch()
+            if ks:
+                purge = r.random() < 0.5
+                if r.random() < 0.7:
+                    ops.append({"op": "prune", "ks": ks, "purge": purge})
+                    for v in ds.values():
+                        if v["st"] == "trashed":
+                            v["st"] = "unstored"
+                    for k in ks:
+                        ds[k]["st"] = "gone" if purge else "unstored"
+                else:
+                    ops.append({"op": "trash", "ks": ks})
+                    ops.append({"op": "empty"})
+                    for v in ds.values():
+                        if v["st"] == "trashed":
+                            v["st"] = "unstored"
+                    for k in ks:
+                        ds[k]["st"] = "unstored"
+            elif not any(v.get("zip") and v["st"] == "live" for v in ds.values()):
+                prelude()
+        elif x < 0.24:
             d = fresh_fields()
             if d:
                 ops.append({"op": "put", "k": newk(d), **d})
@@ -189,6 +279,9 @@ def gen_history(r, nops, hostile):
                     continue
                 refs = [d for d in refs if d["dt"] == refs[0]["dt"]] or refs[:1]
                 ks = [newk(d) for d in refs]
+                if len(ks) > 1:
+                    for k in ks:
+                        ds[k]["grp"] = ks[0]
             ops.append({"op": "ingest", "mode": mode, "ks": ks, "refs": refs, "src": src})
             if mode == "move":
                 stage.discard(src)          # (a refused move puts it back; not reused either way)
@@ -211,14 +304,7 @@ def gen_history(r, nops, hostile):
             #  with "refs must all share the same run" before the datastore is involved)
             ks = some(lambda v: v["st"] == "live" and not v.get("direct") and not v.get("zip") and "%" not in v["d"]["run"], 2, 3)
             if len(ks) >= 2:
-                nz[0] += 1
-                z = nz[0]
-                zips[z] = ks
-                ops.append({"op": "mkzip", "z": z, "ks": ks})
-                ops.append({"op": "prune", "ks": ks, "purge": True})
-                ops.append({"op": "ingestzip", "z": z, "ks": ks})
-                for k in ks:
-                    ds[k]["zip"] = z
+                do_zip(ks)
         elif x < 0.69 and zips:
             z = r.choice(sorted(zips))
             ops.append({"op": "ingestzip", "z": z, "ks": zips[z]})       # re-ingest (refused when any member is still held)
@@ -364,6 +450,22 @@ def oracle(h, res):
     steps = res["steps"]
     all_names = list(h["runs"]) + [i["name"] for i in h["instruments"]] + [d["full_name"] for i in h["instruments"] for d in i["detectors"]]
     hist_pct = any(ESC.search(n) for n in all_names)
+    # datasets whose names differ from another dataset's only by percent-encoding (they may name ONE file): only for
+    # those is a lost artifact attributed to the known aliasing defect
+    fields = {}
+    for op in h["ops"]:
+        if op["op"] == "put":
+            fields[op["k"]] = op
+        elif op["op"] == "ingest":
+            for k, d in zip(op["ks"], op["refs"]):
+                fields.setdefault(k, d)
+
+    def raw(d):
+        return (d["dt"], d["run"], d["inst"], d.get("detname", ""))
+
+    def dec(d):
+        return tuple(unquote(unquote(x)) for x in raw(d))
+    aliased = {k for k, d in fields.items() if any(k2 != k and raw(d2) != raw(d) and dec(d2) == dec(d) for k2, d2 in fields.items())}
     for n, op in enumerate(h["ops"]):
         b, a = steps[n], steps[n + 1]
         kind = op["op"]
@@ -392,7 +494,7 @@ def oracle(h, res):
             if k in b["live"] and b["get"].get(ks, "NotFound") != "NotFound" and a["get"].get(ks, "ok") == "NotFound":
                 if kind in ("prune", "trash", "empty", "removerun") and k in op.get("ks", []):
                     continue
-                cause = "" if refused else (":pct-escape" if hist_pct else ":plain")
+                cause = "" if refused else (":pct-escape" if k in aliased else ":plain")
                 fails.append((f"live-dataset-lost-artifact:{tag}{refused}{cause}", n,
                               f"step {n} ({tag}, outcome {a['out']}): dataset {k} is still stored but its artifact is gone (get raises FileNotFoundError)"))
     return fails
@@ -640,7 +742,7 @@ def run(ctx: Ctx):
     r = ctx.rng
     n_hist = int(os.environ.get("C09_NHIST", 160 if ctx.quick else 1000))
     nops = (8, 18) if ctx.quick else (10, 30)
-    hists = [gen_history(r, r.randint(*nops), r.random() < 0.45) for _ in range(n_hist)]
+    hists = [gen_history(r, r.randint(*nops), r.random() < 0.45, mixed=(i % 3 == 0)) for i in range(n_hist)]
     pairs = run_batch(ctx, hists, "generated")
     if pairs:
         ctx.sample({"history": {k: pairs[0][0][k] for k in ("runs", "instruments")}, "ops": pairs[0][0]["ops"][:6],
@@ -649,7 +751,7 @@ def run(ctx: Ctx):
         correspond(ctx, f"hist{k // 250}", pairs[k:k + 250])
 
     if ctx.broken and not ctx.oracle_failures:
-        extra = [gen_history(r, r.randint(12, 30), r.random() < 0.6) for _ in range(int(os.environ.get("C09_NSEARCH", 250 if ctx.quick else 1000)))]
+        extra = [gen_history(r, r.randint(12, 30), r.random() < 0.6, mixed=r.random() < 0.5) for _ in range(int(os.environ.get("C09_NSEARCH", 250 if ctx.quick else 1000)))]
         more = run_batch(ctx, extra, "search")
         for h, res in more:
             for sig, n, what in oracle(h, res):
